@@ -133,15 +133,6 @@ type verdict struct{ fp, what string }
 // outcome classes for vacuity accounting
 var outcomes sync.Map
 
-func in(xs []int, x int) bool {
-	for _, y := range xs {
-		if y == x {
-			return true
-		}
-	}
-	return false
-}
-
 func look(w *ew.World, u []uobj, shards []int) []view {
 	ctx := context.Background()
 	vs := make([]view, len(u))
